@@ -188,6 +188,25 @@ Theorem C19_meas_self_correlation blind r m m' E :
   nom (m_mag m') = 0%Qc ∧ variance E (m_mag m') = 0%Qc ∧ m_units m' = m_units m.
 Proof. exact (meas_sub_self blind r m m' E). Qed.
 
+(** a measurement that is the RESULT of an operation is re-wrapped without creating a fresh
+    variable ([meas_wrap]); combined again with its own ancestors the correlations show:
+    wrap(a) − a = 0 ± 0, c·m − m has σ = |c − 1|·σ_m, (m + m) + m has (1+1+1)·σ_m = 3·σ_m, m minus m converted
+    (there and back, or once) has no / the slope-difference uncertainty, (m·t)/m has t's σ only *)
+Theorem C19_derived_correlation E a b u c s o s1 o1 s2 o2 :
+  (m_mag (meas_wrap a u) = a ∧ m_units (meas_wrap a u) = u
+   ∧ variance E (aff_sub (m_mag (meas_wrap a u)) a) = 0%Qc
+   ∧ covariance E (m_mag (meas_wrap a u)) a = variance E a)
+  ∧ variance E (aff_sub (aff_affine c 0 a) a) = ((c - 1) * (c - 1) * variance E a)%Qc
+  ∧ variance E (aff_add (aff_add a a) a) = ((1 + 1 + 1) * (1 + 1 + 1) * variance E a)%Qc
+  ∧ ((s2 * s1 = 1)%Qc → variance E (aff_sub a (aff_affine s2 o2 (aff_affine s1 o1 a))) = 0%Qc)
+  ∧ variance E (aff_sub a (aff_affine s o a)) = ((1 - s) * (1 - s) * variance E a)%Qc
+  ∧ (∀ d, aff_div (aff_mul a b) a = Ok d → variance E d = variance E b ∧ nom d = nom b).
+Proof.
+  split; [exact (rewrap_identity E a u)|]. split; [exact (derived_scale_sub E c a)|].
+  split; [exact (derived_add_add E a)|]. split; [exact (derived_convert_back E a s1 o1 s2 o2)|].
+  split; [exact (derived_convert_sub E a s o) | exact (derived_mul_div E a b)].
+Qed.
+
 (** F73 (known finding): the Measurement class ([blind = true]) applies the multiplicative
     rules to offset units, where the Quantity class refuses *)
 Theorem C19_unit_rules_offset_refuted :
